@@ -285,6 +285,9 @@ def extra_cells(m, g):
         ("sha1crypt", "noterm", L(b"$sha1$1000$") + S(8), [0] * 6 + [8] * 4 + [0] + [1] * 8),
         ("sha1crypt", "salt64", L(b"$sha1$20000$") + S(64) + L(b"$"), [0] * 6 + [8] * 5 + [0] + [1] * 64 + [0]),
         ("bsdicrypt", "evencount", L(b"_A/..") + S(4), [0] + [8] * 4 + [1] * 4),
+        # F5: the longest salts whose hash still fits the output field (a hash of 340..383 characters used as a setting)
+        ("scrypt", "salt300", L(b"$7$CU..../....") + S(300), [0] * 3 + [8] * 11 + [1] * 300),
+        ("scrypt", "salt325", L(b"$7$CU..../....") + S(325), [0] * 3 + [8] * 11 + [1] * 325),
     ]
     cells, meta = [], {}
     rows = {G.method_of_row(r): r for r in g["rows"]}
